@@ -1614,6 +1614,27 @@ func calleeParams(ci calleeInfo, c *ssa.CallCommon) ([]string, []types.Type) {
 
 func (g *Gen) call(c *ssa.CallCommon, pos token.Pos, isGo bool) Val {
 	if b, ok := c.Value.(*ssa.Builtin); ok {
+		// call-site clauses on a builtin (`site append#1 : $arg1 == xs`): checked only
+		sk := b.Name()
+		ord := g.siteOrd[sk]
+		g.siteOrd[sk] = ord + 1
+		if g.ct != nil {
+			for _, s := range g.ct.Sites {
+				if s.Callee != sk || s.Ord != ord || s.Let != "" || s.Assume {
+					continue
+				}
+				if g.siteHit == nil {
+					g.siteHit = map[*SiteAssert]bool{}
+				}
+				g.siteHit[s] = true
+				var args []Val
+				for _, a := range c.Args {
+					args = append(args, g.val(a))
+				}
+				env := g.siteEnv(calleeInfo{}, c, args)
+				g.checkNamed("site", sk+"#"+fmt.Sprint(ord)+"."+clauseName(s.C, 0), env.boolOf(s.C.E), "call-site assertion: "+s.C.Src)
+			}
+		}
 		return g.builtin(b, c)
 	}
 	if r, ok := g.intrinsic(c); ok {
